@@ -397,6 +397,9 @@ class MarkdownNormalizer(Renderer):
             with self.container(prefix, subsequent_indent):
                 rendered_item = self.render(child)
                 result.append(rendered_item)
+            # The first-line prefix of an enclosing container (e.g. the marker of an outer
+            # list item whose first block is this list) has been used by the first item.
+            self._prefix = self._second_prefix
 
         # Restore the previous list's tightness (for nested lists)
         self._current_list_tight = old_tight
